@@ -161,6 +161,11 @@ def make_instance(rng, template, tmpdir, tag):
             R = ref_dfa(rng, max_states=3 if len(syms) <= 2 else 2, syms=syms)
         elif template in ('dfa-hopfcroft', 'dfa-minimal'):
             R = ref_dfa(rng, max_states=6, connected=rng.random() < 0.5)
+        elif rng.random() < 0.25:
+            # a larger reference automaton: 10..13 states with consecutive numbered names (q0.. or q1.., reaching two-digit suffixes)
+            nq = rng.choice([10, 11, 12, 13])
+            lo = rng.choice([0, 1])
+            R = fag.random_connected_dfa(rng, nq, rng.randint(1, 2), names=['q%d' % i for i in range(lo, lo + nq)], p_final=0.4)
         else:
             R = ref_dfa(rng, max_states=5, syms=rng.choice(['ab', 'abc', '01', 'a']))
         text, _, _ = txt.render_fa(R, 'dfa', None, layout(rng), rng)
